@@ -98,6 +98,10 @@ def _drive(args):
     return out
 
 
+def _child_fills(n):
+    return [call(lambda: pinblock.Iso4PinBlock('1234').to_bytes()) for _ in range(n)]
+
+
 def run(rep, wd, tier, seed):
     rep.assumptions += ['TLC 1.8 evaluates the TLA+ text correctly',
                         'Des.tla / Aes.tla are transcriptions of FIPS 46-3 / FIPS 197 checked against the published '
@@ -129,6 +133,14 @@ def run(rep, wd, tier, seed):
         kind, out = call(lambda: pinblock.Iso4PinBlock('1234').to_bytes())
         ev.append(pev('iso4', '1234', supplied=False, kind=kind, out=out if kind == 'ok' else ()))
     traces.append({'tid': len(traces), 'events': ev, '_desc': '%d consecutive format 4 blocks without a supplied fill' % len(ev)})
+    # worker processes forked from this process AFTER it has built blocks: what a pre-forking server does.  The fills of
+    # the parent and of both children go into one trace - none may repeat
+    import multiprocessing
+    parent = [call(lambda: pinblock.Iso4PinBlock('1234').to_bytes()) for _ in range(3)]
+    with multiprocessing.get_context('fork').Pool(2) as pool:
+        kids = pool.map(_child_fills, [60, 60])
+    ev = [pev('iso4', '1234', supplied=False, kind=k, out=o if k == 'ok' else ()) for k, o in parent + kids[0] + kids[1]]
+    traces.append({'tid': len(traces), 'events': ev, '_desc': 'format 4 blocks of a parent process and of two workers forked from it afterwards'})
     rep.extra['cipher_vectors'] = sum(1 for t in traces for e in t['events'] if e['op'] in ('tdes', 'aes'))
     rep.extra['calls'] = sum(len(t['events']) for t in traces)
     rep.sample({'trace': traces[0]['_desc'], 'ops': [e['op'] for e in traces[0]['events']]})
